@@ -375,6 +375,48 @@ func runC03(ctx *common.Ctx) error {
 		return nil
 	}
 
+	// ---- corpus: fixed scripts (minimised earlier failures and the basic behaviours every run must exercise) ----
+	sel := func(si int, b string) op { return op{Kind: "SELECT", S: si, Box: b, Setup: true} }
+	app := func(si int, b string, fl ...string) op { return op{Kind: "APPEND", S: si, Box: b, Flags: fl} }
+	sto := func(si int, set, act string, fl ...string) op {
+		if fl == nil {
+			fl = []string{}
+		}
+		return op{Kind: "STORE", S: si, Set: set, Act: act, Flags: fl}
+	}
+	corpus := []struct {
+		name string
+		k    int
+		ops  []op
+	}{
+		{"deleted-flag-per-mailbox", 1, []op{sel(0, "b1"), app(0, "b1", `\Deleted`, "Foo"), app(0, "b1", "bar"), app(0, "b1"),
+			{Kind: "COPY", S: 0, Set: "1", Box: "b2"}, sto(0, "1:3", "-", `\Deleted`), sto(0, "2:3", "+", `\Deleted`), sto(0, "2,3", "-", `\Deleted`),
+			sto(0, "1:3", "=", `\Deleted`), {Kind: "EXPUNGE", S: 0}}},
+		{"flag-case-and-sets", 1, []op{sel(0, "b1"), app(0, "b1", "Foo", `\Seen`), app(0, "b1", "foo"), app(0, "b1"),
+			sto(0, "1:3", "-", "FOO"), sto(0, "1:3", "=", `\Seen`, "x"), sto(0, "1:2", "+", "X", "y"), sto(0, "2:3", "-", "Y", `\seen`),
+			sto(0, "1:3", "="), sto(0, "1", "+", "$Forwarded"), sto(0, "1", "-", "forwarded"), sto(0, "3", "+", "a,b")}},
+		{"copy-move-present-and-self", 1, []op{sel(0, "b1"), app(0, "b1", "k1"), app(0, "b1", "k2"), app(0, "b1", "k3"),
+			{Kind: "COPY", S: 0, Set: "1:2", Box: "b2"}, {Kind: "COPY", S: 0, Set: "2:3", Box: "b2"}, {Kind: "MOVE", S: 0, Set: "1,3", Box: "b2"},
+			{Kind: "COPY", S: 0, Set: "1", Box: "b3"}, {Kind: "SELECT", S: 0, Box: "b2"}, {Kind: "MOVE", S: 0, UID: true, Set: "1:*", Box: "b3"},
+			{Kind: "COPY", S: 0, Set: "1:*", Box: "nobox"}}},
+		{"stale-targets", 2, []op{sel(0, "b1"), sel(1, "b1"), app(0, "b1", "s1"), app(0, "b1", "s2"), {Kind: "COPY", S: 0, Set: "1", Box: "b2"},
+			sto(0, "1", "+", `\Deleted`), {Kind: "EXPUNGE", S: 0}, sto(1, "1", "+", "late"), {Kind: "MOVE", S: 1, Set: "1", Box: "b2"},
+			{Kind: "COPY", S: 1, Set: "1", Box: "b3"}, {Kind: "EXPUNGE", S: 1}}},
+	}
+	for _, c := range corpus {
+		scen++
+		label := fmt.Sprintf("scenario %d (corpus %s)", scen, c.name)
+		ctx.Current(label+": "+opsString(c.ops), map[string]interface{}{"sessions": c.k, "ops": c.ops})
+		cr, err := spawn(ctx, childSpec{ID: scen, Kind: "ops", Label: label, K: c.k, Ops: c.ops, Record: true}, 0)
+		if err != nil {
+			return err
+		}
+		res.Count("corpus:" + c.name)
+		if err := finish(&scenario{ID: scen, K: c.k}, label, cr, false); err != nil {
+			return err
+		}
+	}
+
 	// ---- small scenarios ----
 	for i := 0; i < nSmall; i++ {
 		scen++
